@@ -68,11 +68,11 @@ impl MathOp {
             MathOp::Add => x.wrapping_add(y),
             MathOp::And => x & y,
             MathOp::Or => x | y,
-            MathOp::Sll => x << y,
+            MathOp::Sll => x.wrapping_shl(y as u32),
             MathOp::Slt => i32::from(x < y),
             MathOp::Sltu => i32::from((x as u32) < (y as u32)),
-            MathOp::Sra => x >> y,
-            MathOp::Srl => (x as u32 >> y) as i32,
+            MathOp::Sra => x.wrapping_shr(y as u32),
+            MathOp::Srl => (x as u32).wrapping_shr(y as u32) as i32,
             MathOp::Sub => x.wrapping_sub(y),
             MathOp::Xor => x ^ y,
             MathOp::Mul => x.wrapping_mul(y),
